@@ -384,14 +384,21 @@ def run_r4(ctx, rule):
             wmax = l["len"]
     sy = sym(rf)
     rlim = None
+    # the variable that is used as look-ahead offset counts the groups read so far
+    offs = set()
+    for bb, t in rf.calls():
+        if norm(util.cname(t)).endswith("request_byte_at_offset") and len(t["args"]) > 1:
+            e = sy.operand(t["args"][1])
+            if e[0] == "l":
+                offs.add(e[1])
     for bi, b in enumerate(rf.blocks):
         for s in b["stmts"]:
-            if s["k"] == "assign" and s["rv"]["k"] == "bin" and s["rv"]["op"] == "Eq":
+            if s["k"] == "assign" and s["rv"]["k"] == "bin" and s["rv"]["op"] in ("Eq", "Ge", "Gt"):
                 e = sy.rvalue(s["rv"])
                 for side, other in ((e[2], e[3]), (e[3], e[2])):
                     v = ceval(other)
-                    if v is not None and v > 1 and side[0] == "l" and rf.local_name(side[1]) == "byte_len":
-                        rlim = v
+                    if v is not None and v > 1 and side[0] == "l" and side[1] in offs:
+                        rlim = v if e[1] != "Gt" else v + 1
     rule.check(wmax is not None and wmax * 7 >= 64, "varint/writer-covers-usize", "the writer's group buffer (%s groups of 7 bits) covers usize" % wmax, wf.loc())
     rule.check(rlim is not None and wmax is not None and rlim >= wmax, "varint/reader-accepts-writer", "the reader accepts at least as many 7-bit groups (%s) as the writer can emit (%s)" % (rlim, wmax), rf.loc())
 
